@@ -2,8 +2,10 @@
   C02 — instantiation of `C02_same_solution` / `C02_refusal_agree` (Props/C02.lean) for the solver
   models whose C01 / refusal theorems exist: Gram–Schmidt (`gsoSolve`, full), Cholesky (`cholSolve`,
   full incl. singular case), envelope (`envCore`, full incl. singular case; ordering and
-  homogenisation as parameters, here unit weights) and SVD (`svdSolveCert`: the factorisation enters
-  as a per-run certificate `SvdCert`, the iteration itself is not proved — see Props/C01/Svd.lean).
+  homogenisation as parameters, here unit weights) and SVD (`svdSolveCert` with the factors as a
+  parameter and `SvdCert` as hypothesis; `Props/C02SvdDecompose.lean` restates the svd pairs for the
+  factors `Svd.decompose` returns — `SvdCert` proved up to `Unambiguous tol W` — and adds the
+  refusal equivalence `C02_refusal_svd`).
   Each theorem pairs the Gram–Schmidt model with one of the other three; equality is transitive, so
   all four agree.  Hypotheses are exactly those of the per-solver theorems ("rank numerically
   unambiguous" in each algorithm's own sense) plus `Resolves p.A p.S`.
